@@ -8,5 +8,8 @@ CONSTANTS
   DevTruncAll = TRUE
   DevSwallowBreak = FALSE
   DevSplitLast = FALSE
+  DevSortBreakStops = FALSE
+  DevSortEmptyNoComplete = FALSE
+  DevSpaceCountsKeyless = FALSE
 CHECK_DEADLOCK FALSE
 INVARIANT Composition
